@@ -45,21 +45,23 @@ Theorem C17_schedule_is_protocol :
 Proof. exact schedule_protocol. Qed.
 Print Assumptions C17_schedule_is_protocol.
 
-(* the defect fixed in 6c84d6e (CleanExit storing into p.txnDataChannel) is outside the protocol
-   and its trace is rejected by the checker *)
-Theorem C17_old_cleanexit_rejected :
-  pexec_stuck pinit old_cleanexit_schedule 0 = Some 16 /\
-  race_free old_cleanexit_trace = false /\ first_race rinit 0 old_cleanexit_trace = Some 10.
-Proof. exact (conj old_cleanexit_not_protocol old_cleanexit_racy). Qed.
-Print Assumptions C17_old_cleanexit_rejected.
-
-(* the deviations of the CURRENT code from the protocol that the race detector reports on the
-   unchanged tree (capacity counter read by the worker, shared vendors struct written after
-   publication, sender.stream rewritten under a live receive goroutine): their traces are rejected *)
-Theorem C17_known_deviations_rejected :
-  race_free capacity_trace = false /\ race_free vendors_trace = false /\ race_free stream_trace = false.
-Proof. exact (conj (proj1 capacity_racy) (conj (proj1 vendors_racy) (proj1 stream_racy))). Qed.
-Print Assumptions C17_known_deviations_rejected.
+(* regressions: the four C17 defects found in the daemon and fixed in /repo (6c84d6e CleanExit's
+   stores into p.txnDataChannel / p.appInfoChannel; fc40238 the worker's read of the producer's
+   capacity counter; 00696d1 OverrideDockerId writing the vendors struct shared by all connect
+   payloads; c8aacc8 the receive goroutine reading s.stream): the interleaving of each is rejected
+   by the checker, and the CleanExit store is not a step of the protocol *)
+Theorem C17_fixed_defects_rejected :
+  (pexec_stuck pinit fixed_6c84d6e_cleanexit_schedule 0 = Some 16 /\
+   race_free fixed_6c84d6e_cleanexit_trace = false) /\
+  race_free fixed_fc40238_capacity_trace = false /\
+  race_free fixed_00696d1_vendors_trace = false /\
+  race_free fixed_c8aacc8_stream_trace = false.
+Proof.
+  exact (conj (conj fixed_6c84d6e_cleanexit_not_protocol (proj1 fixed_6c84d6e_cleanexit_racy))
+              (conj (proj1 fixed_fc40238_capacity_racy)
+                    (conj (proj1 fixed_00696d1_vendors_racy) (proj1 fixed_c8aacc8_stream_racy)))).
+Qed.
+Print Assumptions C17_fixed_defects_rejected.
 
 (* the access-table check reports exactly the accesses no rule of the discipline admits *)
 Theorem C17_table_check_exact :
